@@ -1,6 +1,7 @@
 chk("C19", "exploration", "property-based testing (Hypothesis): round-trip oracle + metamorphic chunking relation; plus coverage-guided fuzzing (atheris/libFuzzer driving the same generators and oracles)",
     "Generated (command, kwargs) over the supported value types must decode(encode(x)) == x with equal types and "
     "encode to one line; generated streams of 1-8 messages with binary payloads must be reassembled identically "
+    "The reassembled messages are also dispatched through BcpInterface.process_bcp_message with and without its debug logging: handlers must receive the same parameters and payloads in the order sent. "
     "for whole, generated-split and single-byte delivery and equal the per-message decoding. Search, not proof.",
     "Identifier-alphabet names; no lone surrogates; pickle client not covered. Trusted: CPython asyncio.StreamReader.",
     "DESIGN.md §4 C19")
@@ -63,6 +64,7 @@ chk("C16", "exploration", "property-based testing (Hypothesis): differential eva
     "templates and by a strict reference evaluator whose leaf operations are executed by CPython (value / default / "
     "unspecified outcomes); generated histories of machine-variable, setting, player-variable and device-attribute "
     "changes check that a subscribed template's future completes after every change of something its taken path read "
+    "A setting stored under a differently named machine variable and a monitored device attribute under an alias that starts as None (achievement group selected_member) are part of the subscription histories. "
     "and that re-evaluation equals the reference. Search, not proof.",
     "Bounded exponents/repeat counts; errors other than TypeError/missing name leave the outcome open; None reports the default.",
     "DESIGN.md §4 C16, appendix A.5")
@@ -71,6 +73,7 @@ chk("C18", "exploration", "property-based testing (Hypothesis): generated block 
     "enable, disable, reset, restart, add/subtract/jump events and integer-ms gaps around its hit window and timeout; "
     "after every operation the emitted hit/complete/timeout events and (enabled, completed, value) must match one "
     "of the reference model's possible states (two orders are allowed only when an operation coincides with a timer). "
+    "Blocks in a mode also see the mode stop and start again (a fresh block has no hit window open and its timeout re-armed). "
     "Search, not proof.",
     "One block per case; hits while the owning mode is stopped are outside the domain.",
     "DESIGN.md §4 C18")
@@ -90,6 +93,7 @@ chk("C12", "exploration", "property-based testing (Hypothesis): generated sectio
     "either raise or return a config where every spec key is present, every value satisfies its validator's predicate "
     "(type, range, enum, device, container members, recursively through sub-configs), no unknown key was accepted, no "
     "provided key dropped and the spec is unchanged. Time strings: accepted values equal number x unit within 1 ms and the "
+    "Unknown keys that are not strings (7:, 1.5:, true:, ~:) and NaN/inf for numeric validators are generated. "
     "documented forms are accepted. Search, not proof.",
     "Any exception is a rejection; None is allowed everywhere; colours checked for shape only; pow2 returns its input unconverted (repo test).",
     "DESIGN.md §4 C12")
@@ -165,6 +169,7 @@ chk("C09", "exploration", "property-based testing (Hypothesis): generated colour
     "after the last operation get_color() equals the stack model's top colour and every hardware channel's last command "
     "equals that colour after brightness/colour correction; on virtual/direct backends hardware tracks running fades. "
     "rgbw_white_behavior (duck_rgb, white_only, min_rgb) is generated. "
+    "A scenario removes or re-colours an entry while the entry above it is fading out; on the virtual backend a twin light that never had the lower entry must then show the same hardware values (mid-fade tracking is asserted on the RGB light only, white channels are not linear in the colour). "
     "Search, not proof.",
     "Correction maths trusted from the light's own gamma_correct/color_correct; ties of priority accept either entry; tracking not asserted under gamma profiles or within 2 s of a removal.",
     "DESIGN.md §4 C09")
@@ -175,6 +180,7 @@ chk("C17", "exploration", "property-based testing (Hypothesis): generated shows 
     "show_player entries with keys; loop wake-ups are late by generated amounts. Every step marker must come at its "
     "scheduled time T0 + sum(durations)/speed within the lateness bound for every loop (no drift), in the model's step "
     "order; played/looped/completed/stopped events once each at the model's moments; after stopping, no light stack "
+    "A machine-wide default_show_sync_ms and shows with an explicit sync_ms of 0 are generated. "
     "entry, coil or running instance of the show remains. Search, not proof.",
     "Lateness <= 4 ms; requests closer than 2J to a step instant are skipped; one live instance per show so markers can be attributed.",
     "DESIGN.md §4 C17")
